@@ -161,6 +161,17 @@ func (g *hp) def() string {
 	case 3:
 		n := g.name("o")
 		g.objs = append(g.objs, n)
+		if g.t.Chance(1, 3) {
+			// several members whose decoding is unusual in different ways (numbers beyond the
+			// integer range, deep nesting, repeated names): whatever the decoder makes of them -
+			// values or an error - must not depend on the order it visits the members in
+			odd := []string{"1e30", "9223372036854775808", "-1e25", "1.5e300", "12345678901234567890", "[1e30, 2]", "{\"x\": 1e40}", "null", "true", "\"s\""}
+			var ms []string
+			for i := 0; i < 3+g.t.Intn(4); i++ {
+				ms = append(ms, fmt.Sprintf("\"%s\": %s", hpKeys[g.t.Intn(10)], odd[g.t.Intn(len(odd))]))
+			}
+			return fmt.Sprintf("%s := JSON.try.dec(`{%s}`).A", n, strings.Join(ms, ", "))
+		}
 		return fmt.Sprintf("%s := JSON.dec(`{\"%s\": 1, \"%s\": [2, {\"%s\": 3, \"%s\": 4}], \"%s\": {\"%s\": 5, \"%s\": 6}}`)", n,
 			hpKeys[g.t.Intn(8)], hpKeys[g.t.Intn(8)], hpKeys[g.t.Intn(8)], hpKeys[g.t.Intn(8)], hpKeys[g.t.Intn(8)], hpKeys[g.t.Intn(8)], hpKeys[g.t.Intn(8)])
 	default:
